@@ -13,14 +13,14 @@ import (
 
 func init() {
 	register(&Property{
-		ID: "C01",
+		ID:          "C01",
 		Explanation: "Code-shape facts without which the live index cannot equal a rebuild from the tape, decided for every site: (single-writer) every call of a row-changing method of config.MetadataPersister (set computed from pkg/persisters) sits in a function that becomes unreachable from all roots once recovery.Index is removed from the static call graph, and the SQL write API is used only in pkg/persisters; (snapshot-window) at each (*tar.Writer).WriteHeader(h) the value the live index will receive - the snapshot appended to the slice that the decrypt callback handed to recovery.Index reads - was taken from h on every path and nothing was stored through h since, the only calls receiving h being SignHeader/EncryptHeader; every snapshot is followed by its WriteHeader before the next snapshot or the trailer; (append-then-index) after a WriteHeader may have happened, the only non-error exit is `recovery.Index(...)` with the operation's own metadata, reached across the success edges of cleanup and CloseWriter; (converters) the four header converters assign every same-meaning field from its counterpart, none crossed.",
 		NotDecided:  "Replay semantics over histories (tombstones, rename onto used names: see C07), the positional offset=1 re-read, tar encode/decode fidelity, the cached-root heuristics.",
 		Assumptions: []string{"SignHeader/EncryptHeader and their inverses are exact inverses on the header value (C09/C08 check their shape)"},
 		Rules:       []func(*Ctx){ruleC01SingleWriter, ruleC01SnapshotWindow, ruleC01AppendThenIndex, ruleConverters("C01")},
 	})
 	register(&Property{
-		ID: "C02",
+		ID:          "C02",
 		Explanation: "Two necessary conditions of reference-filesystem behaviour, nothing more: (converters) each of the four header converters (tar<->db<->config) assigns every target field that has a same-meaning source field or parameter from exactly that counterpart, so Chown/Chtimes/Stat cannot silently cross fields; (precondition-before-append) in Create, Mkdir, OpenFile's create path, Rename and SymlinkIfPossible every path to a tape-appending call crosses the success edge of inventory.Stat on filepath.Dir(<target>); Remove checks the target and its emptiness before Delete; Rename stats the source before Move; Chmod/Chown/Chtimes stat the target before the metadata update - so a call that must fail is rejected before anything is appended.",
 		NotDecided:  "Outcome equality per call with a reference filesystem, tombstone/reuse histories, SQL wildcard names (C12), parent kind (C13), error classes, the rename-over-existing early return.",
 		Assumptions: []string{"inventory.Stat returns sql.ErrNoRows exactly when the entry does not exist"},
@@ -647,11 +647,11 @@ func ruleC02Preconditions(c *Ctx) {
 		return out
 	}
 	type spec struct {
-		fn       string
-		nameVar  string // parameter holding the target name
-		parent   bool   // require Stat(filepath.Dir(name)) success
-		self     bool   // require Stat(name) success (either symlink flag)
-		what     string
+		fn      string
+		nameVar string // parameter holding the target name
+		parent  bool   // require Stat(filepath.Dir(name)) success
+		self    bool   // require Stat(name) success (either symlink flag)
+		what    string
 	}
 	specs := []spec{
 		{"(*STFS).Create", "name", true, false, "parent of the new file exists"},
